@@ -123,8 +123,10 @@ def _run(cx, sc, stations, station_of, battery, sched, n_cons, st_perm, c_perm, 
                 return out
 
         algo = Algo()
-    elif sched == "scripted_mr2":
+    elif sched in ("scripted_mr2", "scripted_mr3"):
         from acnportal.algorithms import BaseAlgorithm
+
+        MR = int(sched[-1])
 
         class Algo2(BaseAlgorithm):
             """open-loop scheduler: recomputes every 2 periods, returns 2 periods, only for active sessions; what it
@@ -132,14 +134,14 @@ def _run(cx, sc, stations, station_of, battery, sched, n_cons, st_perm, c_perm, 
 
             def __init__(self):
                 super().__init__()
-                self.max_recompute = 2
+                self.max_recompute = MR
 
             def schedule(self, active_sessions):
                 t = self.interface.current_time
                 out = {}
                 for s in active_sessions[::-1]:
                     row = []
-                    for off in range(2):
+                    for off in range(MR):
                         key = (s.station_id, t - k, off)
                         if key not in sc["table"]:
                             sc["table"][key] = cx.real("q_%s_%d_%d" % (s.station_id, t - k, off), lo=0, hi=32)
@@ -244,6 +246,9 @@ def jobs(tier):
         Sc = [("PS-B", "EVSE", 208, 0), ("PS-A", "EVSE", 240, 0)]
         add(Sc, (0, 1), 3, "huge", "scripted_mr2", 1, (1, 0), (0,), (1, 0), 1)        # open-loop scheduler, shift
         add(Sc, (0, 0), 3, "huge", "scripted_mr2", 0, (0, 1), (), (0, 1), 2)
+        # recompute period 3 and a horizon long enough for two periodic recomputes: the recompute clock must move with the events
+        add(Sc, (0,), 5, "huge", "scripted_mr3", 0, (0, 1), (), (0,), 1)
+        add(Sc, (1,), 5, "huge", "scripted_mr3", 0, (0, 1), (), (0,), 2)
         # all three sessions present at once, one feeder congested (a minimum rate may not fit): sharded by the departures
         for ds in itertools.permutations((1, 2, 3)):
             add(S3f, (0, 1, 2), 3, "huge", "edf_unint_est_together", 2, (1, 0, 2), (1, 0), (0, 1, 2), 0, cost=5, req_lo=50, dshard=ds)
@@ -251,6 +256,8 @@ def jobs(tier):
         Sc = [("PS-B", "EVSE", 208, 0), ("PS-A", "EVSE", 240, 0)]
         for k in (1, 2, 3):
             add(Sc, (0, 1), 4, "ideal", "scripted_mr2", 1, (1, 0), (0,), (1, 0), k)
+            add(Sc, (0, 1), 5, "huge", "scripted_mr3", 0, (0, 1), (), (0, 1), k)
+            add(Sc, (0,), 6, "huge", "scripted_mr3", 1, (1, 0), (0,), (0,), k)
         for sp in itertools.permutations(range(3)):
             add(S3f, (0, 1, 2), 4, "huge", "fcfs_unint", 2, sp, (1, 0), (0, 1, 2), 0, cost=50, req_lo=50)
             if sp != (0, 1, 2):
